@@ -22,7 +22,13 @@ def safe_name(rng: random.Random, used: set, maxlen: int = 12) -> str:
         else:
             s = "".join(rng.choice(SAFE_CHARS) for _ in range(rng.randint(1, 5))) + " " + \
                 "".join(rng.choice(SAFE_CHARS) for _ in range(rng.randint(1, 5)))
+        if rng.random() < 0.15 and len(s) >= 2:
+            # '.', '#' and '-' inside a name are kept by every sanitiser as they are
+            k = rng.randrange(1, len(s))
+            s = s[:k] + rng.choice([".", "#", "-", ".1", "#2"]) + s[k:]
         s = s[:maxlen].strip()
+        if s[-1:] in ".-" or "-L" in s or "-R" in s or " ." in s or ". " in s or " -" in s or "- " in s:
+            continue
         # must not end in a lone L/R token ("X L"), must not be empty, unique
         toks = s.split(" ")
         if not s or toks[-1] in ("L", "R") or s in used:
@@ -161,7 +167,12 @@ def gen_model(rng: random.Random, *, max_parts: int = 3, max_vols: int = 4, max_
                 # entries of deleted files (start sector 0) left in the table, before / between / after the live ones
                 for _ in range(rng.randint(1, 3)):
                     ghosts.append([rng.randint(0, len(files)), safe_name(rng, used), rng.choice([0xF3, 0x73, 0xF0, 0x00, 0x64])])
-            vols.append({"name": safe_name(rng, vnames), "vtype": rng.choice([1, 3]), "ghosts": ghosts,
+            after_end = []
+            if deleted and files and rng.random() < 0.25:
+                # stale but valid-looking entries BEHIND the end-of-table marker (remains of a longer, older table)
+                for _ in range(rng.randint(1, 2)):
+                    after_end.append([rng.randrange(len(files)), safe_name(rng, used)])
+            vols.append({"name": safe_name(rng, vnames), "vtype": rng.choice([1, 3]), "ghosts": ghosts, "after_end": after_end,
                          "dir": {"mode": "run" if rng.random() < 0.3 else "chain", "policy": rng.choice(A.POLICIES),
                                  "seed": rng.getrandbits(30), "v2": rng.random() < 0.3},
                          "files": files})
